@@ -327,7 +327,7 @@ pub fn gen(rng: &mut Rng, thorough: bool, out: &mut Vec<String>) {
                     continue;
                 }
                 k += 1;
-                let mk = MOD_CLASSES[(k * 5 + ni) % MOD_CLASSES.len()];
+                let mk = MOD_CLASSES[(k * 5) % MOD_CLASSES.len()];
                 let tag = g.tag(len * dm);
                 let a = numerator(nk, len, tag, g.r);
                 let m = modulus(mk, dm, g.r);
@@ -410,7 +410,7 @@ pub fn gen(rng: &mut Rng, thorough: bool, out: &mut Vec<String>) {
                 if !thorough && (da * dd > 3000 && k % 4 != 0) {
                     continue;
                 }
-                let dk = MOD_CLASSES[(k * 5 + ni) % MOD_CLASSES.len()];
+                let dk = MOD_CLASSES[(k * 5) % MOD_CLASSES.len()];
                 let tag = g.tag(da * dd * 4);
                 let a = numerator(nk, da + 1, tag, g.r);
                 let d = modulus(dk, dd, g.r);
